@@ -63,6 +63,7 @@ type Contract struct {
 	Panics     string
 	Properties []string
 	Trusted    bool
+	Inline     []string
 	Covers     []clause
 	Cases      []caseSpec
 	Shared     bool
@@ -175,6 +176,11 @@ func parseContractFile(path string, pkgPath string) ([]*Contract, []string, erro
 			}
 			fmt.Sscanf(parts[0], "%d", &n)
 			sub = parts[1]
+			invLabel := ""
+			if strings.HasPrefix(sub, "invariant[") && strings.HasSuffix(sub, "]") {
+				invLabel = sub[len("invariant[") : len(sub)-1]
+				sub = "invariant"
+			}
 			ls := cur.Loops[n]
 			if ls == nil {
 				ls = &loopSpec{paramsOf: map[string][]string{}}
@@ -182,7 +188,7 @@ func parseContractFile(path string, pkgPath string) ([]*Contract, []string, erro
 			}
 			switch sub {
 			case "invariant":
-				ls.invs = append(ls.invs, clause{expr: parts[2], line: i + 1})
+				ls.invs = append(ls.invs, clause{label: invLabel, expr: parts[2], line: i + 1})
 				lastClause = &ls.invs[len(ls.invs)-1]
 			case "decreases":
 				ls.decr = parts[2]
@@ -221,6 +227,11 @@ func parseContractFile(path string, pkgPath string) ([]*Contract, []string, erro
 			cur.Properties = append(cur.Properties, strings.Fields(rest)...)
 		case "trusted":
 			cur.Trusted = true
+		case "inline":
+			// calls of these functions inside this contract/lemma execute the body, not the contract
+			for _, m := range strings.Split(rest, ",") {
+				cur.Inline = append(cur.Inline, strings.TrimSpace(m))
+			}
 		default:
 			return nil, nil, fmt.Errorf("%s:%d: unknown clause %q", path, i+1, kw)
 		}
@@ -906,4 +917,12 @@ func labelOr(l, def string, i int) string {
 		return l
 	}
 	return fmt.Sprintf("%s#%d", def, i)
+}
+
+// invName: obligation name of loop invariant clause k (its label when it has one).
+func (ls *loopSpec) invName(ordinal, k int) string {
+	if k < len(ls.invs) && ls.invs[k].label != "" {
+		return fmt.Sprintf("loop%d.%s", ordinal, ls.invs[k].label)
+	}
+	return fmt.Sprintf("loop%d.%d", ordinal, k)
 }
